@@ -883,9 +883,11 @@ bool DTDScanner::scanAttValue(const   XMLCh* const        attrName
             }
              else
             {
+                //  A character that came from a character reference is only
+                //  subject to space collapsing if it is a #x20 (XML 1.0, 3.3.3)
                 if (curState == InWhitespace)
                 {
-                    if (!fReaderMgr->getCurrentReader()->isWhitespace(nextCh))
+                    if ((escaped && nextCh != chSpace) || !fReaderMgr->getCurrentReader()->isWhitespace(nextCh))
                     {
                         if (firstNonWS)
                             toFill.append(chSpace);
@@ -899,7 +901,8 @@ bool DTDScanner::scanAttValue(const   XMLCh* const        attrName
                 }
                  else if (curState == InContent)
                 {
-                    if (fReaderMgr->getCurrentReader()->isWhitespace(nextCh))
+                    if ((nextCh == chSpace) ||
+                        (fReaderMgr->getCurrentReader()->isWhitespace(nextCh) && !escaped))
                     {
                         curState = InWhitespace;
                         continue;
